@@ -32,6 +32,92 @@ def check(run, rule):
                 "the table evaluator's model of %s no longer matches the code: %s" % (name, msg))
 
     PB = "property_buffer::property::Property::"
+
+    def exists_loop(p, inner_suffix, with_filter):
+        """`for (signal, frags) in self.signature.iter() { [if *signal >= required {] for f in frags.iter() { if f.<inner>(a, b)
+        { return true } } [}] } false` — the loop spelling of `signature.iter()[.filter(..)].any(|..| frags.iter().any(..))`.
+        Decided on the CFG: the exact set of branches (two loop headers, the inner predicate, the optional signal filter),
+        what each of the two result assignments and each loop/predicate block is directly control dependent on, and the
+        operands of the predicate and the filter.  Returns None when it is that function, else the reason."""
+        from .common import guards
+        b = prog.bodies[p]
+        ex = Expr(prog, p)
+        is_next = lambda z: z[0] == "call" and z[1].endswith("Iterator>::next")
+        sw = {"loop": [], "inner": [], "filter": [], "other": []}
+        for bid, blk in enumerate(b["blocks"]):
+            t = blk["term"]
+            if t["k"] != "switch":
+                continue
+            e = strip(ex.operand(t["on"]))
+            if e[0] == "discr" and is_next(strip(e[1])):
+                sw["loop"].append((bid, e))
+            elif e[0] == "call" and e[1].endswith(inner_suffix):
+                sw["inner"].append((bid, e))
+            elif e[0] == "call" and re.search(r"PartialOrd(<.*>)?>?::ge$", e[1]):
+                sw["filter"].append((bid, e))
+            else:
+                sw["other"].append((bid, e))
+        if len(sw["loop"]) != 2 or len(sw["inner"]) != 1 or len(sw["filter"]) != (1 if with_filter else 0) or sw["other"]:
+            return "branches: %d loop headers, %d `%s` tests, %d signal filters, %d others" % (len(sw["loop"]), len(sw["inner"]), inner_suffix, len(sw["filter"]), len(sw["other"]))
+        # which header is the outer one: its iterator does not mention another `next`
+        def src_of(e):
+            return strip(strip(e[1])[2][0])
+        outer = [x for x in sw["loop"] if mentions(src_of(x[1]), lambda z: z[0] == "param" and z[1] == 1 and z[2] == ("signature",)) and
+                 not mentions(src_of(x[1]), lambda z: z[0] == "field" and "@Some" in z[2])]
+        inner = [x for x in sw["loop"] if x not in outer]
+        if len(outer) != 1 or len(inner) != 1:
+            return "the outer loop does not iterate self.signature"
+        isrc = src_of(inner[0][1])
+        if not mentions(isrc, lambda z: z[0] == "field" and z[2][-3:] == ("@Some", "0", "1") and is_next(strip(z[1]))):
+            return "the inner loop does not iterate the fragments (`.1`) of the outer item"
+        ic = sw["inner"][0][1]
+        a0 = strip(ic[2][0])
+        if not (a0[0] == "field" and a0[2] == ("@Some", "0") and is_next(strip(a0[1])) and mentions(a0, lambda z: z[0] == "field" and z[2][-3:] == ("@Some", "0", "1"))) or \
+                [strip(x) for x in ic[2][1:]] != [("param", 2, ()), ("param", 3, ())]:
+            return "the predicate is not `<inner item>.%s(a, b)`" % inner_suffix.split("::")[-1]
+        if with_filter:
+            fc = sw["filter"][0][1]
+            f0, f1 = strip(fc[2][0]), strip(fc[2][1])
+            if not (f0[0] == "field" and f0[2] == ("@Some", "0", "0") and is_next(strip(f0[1])) and f1 == ("param", 4, ())):
+                return "the filter is not `<outer item>.0 >= required_signal`"
+        # result assignments
+        res = []
+        for bid, blk in enumerate(b["blocks"]):
+            for st in blk["stmts"]:
+                if st.get("dst", {}).get("l") == 0 and not st["dst"].get("p"):
+                    c = (st.get("rv", {}).get("ops") or [{}])[0].get("const") if st.get("rv", {}).get("k") == "use" else None
+                    res.append((bid, None if c is None else c.get("int")))
+        if sorted(v for _, v in res if v is not None) != [0, 1] or len(res) != 2:
+            return "the result is not assigned exactly once `true` and once `false`"
+        def deps(bid):
+            return sorted((t_["on"].get("move", t_["on"].get("copy", {})).get("l"), tk if isinstance(tk, int) else "else") for g, tk, t_ in guards(prog, p, bid, direct=True))
+        def sel(swblk, truth):
+            t_ = b["blocks"][swblk]["term"]
+            l = t_["on"].get("move", t_["on"].get("copy", {})).get("l")
+            if truth == "some":
+                return [(l, 1)]
+            if truth == "none":
+                return [(l, 0)]
+            # bool switch: values [0] -> false edge, otherwise true
+            return [(l, "else")] if truth else [(l, 0)]
+        tb = [bid for bid, v in res if v == 1][0]
+        fb = [bid for bid, v in res if v == 0][0]
+        call_block = lambda e: e[3] if len(e) > 3 else None
+        want = [(tb, sel(sw["inner"][0][0], True), "`true` is returned exactly when the predicate holds"),
+                (fb, sel(outer[0][0], "none"), "`false` is returned exactly when the outer loop is exhausted"),
+                (call_block(ic), sel(inner[0][0], "some"), "the predicate is evaluated for every inner item")]
+        if with_filter:
+            want.append((call_block(sw["filter"][0][1]), sel(outer[0][0], "some"), "the filter is evaluated for every outer item"))
+        for bid, expect, what in want:
+            if bid is None or deps(bid) != expect:
+                return "%s: not established (block %s depends on %s)" % (what, bid, deps(bid) if bid is not None else "?")
+        # the inner loop is entered exactly under the filter (or for every outer item)
+        hb = call_block(strip(inner[0][1][1]))
+        entry = [d for d in deps(hb) if d not in sel(sw["inner"][0][0], False)]
+        expect = sel(sw["filter"][0][0], True) if with_filter else sel(outer[0][0], "some")
+        if entry != expect:
+            return "the inner loop is not entered for exactly the %s outer items (depends on %s)" % ("filtered" if with_filter else "all", entry)
+        return None
     # line_overlap family -> line_overlap_with_signal(.., Signal::X)
     for fn, sig in (("line_overlap", "Medium"), ("line_strongly_overlap", "Strong"), ("line_weakly_overlap", "Weak")):
         p = _one(prog, PB + fn)
@@ -62,10 +148,15 @@ def check(run, rule):
                 filt = a[0] == "param" and a[1] == 2 and b[0] == "param" and b[1] == 1
             if len(rr) == 1 and rr[0][0] == "call" and rr[0][1].endswith("Fragment::line_overlap"):
                 inner = True
+        why = None
+        if not (shape and filt and inner):
+            why = exists_loop(p, "Fragment::line_overlap", True)
         if shape and filt and inner:
             good("line_overlap_with_signal = signature.filter(signal >= required).any(frags.any(line_overlap))", p)
+        elif why is None:
+            good("line_overlap_with_signal = signature.filter(signal >= required).any(frags.any(line_overlap))", p, "loop form")
         else:
-            bad("line_overlap_with_signal", p, "shape=%s filter(signal>=required)=%s inner(Fragment::line_overlap)=%s" % (shape, filt, inner))
+            bad("line_overlap_with_signal", p, "shape=%s filter(signal>=required)=%s inner(Fragment::line_overlap)=%s; as a loop: %s" % (shape, filt, inner, why))
     # signal order
     it = None
     for sfx in ("svgbob/src/buffer/property_buffer/property.rs",):
@@ -144,6 +235,18 @@ def check(run, rule):
         good("Fragment::arcs_to = Arc::arcs_to for arcs, false otherwise", p) if ok else bad("Fragment::arcs_to", p, " | ".join(expr_str(x) for x in r))
     else:
         bad("Fragment::arcs_to", None, "function not found")
+    p = _one(prog, PB + "arcs_to")
+    if p:
+        r = _rets(prog, p)
+        e = r[0] if len(r) == 1 else ("unknown",)
+        inner = [c for c in prog.closures_of(p) if len(_rets(prog, c)) == 1 and _rets(prog, c)[0][0] == "call" and _rets(prog, c)[0][1].endswith("Fragment::arcs_to")]
+        shape = e[0] == "call" and re.search(r"Iterator>?::any$", e[1]) and not mentions(e, lambda z: z[0] == "call" and re.search(r"Iterator>?::(filter|skip|take|step_by|skip_while|take_while)\b", z[1])) and \
+            mentions(e, lambda z: z[0] == "param" and z[1] == 1 and z[2] == ("signature",)) and len(inner) == 1
+        why = None if shape else exists_loop(p, "Fragment::arcs_to", False)
+        good("Property::arcs_to = signature.any(frags.any(arcs_to)), every signal", p, "" if shape else "loop form") if why is None else \
+            bad("Property::arcs_to", p, "not `signature.iter().any(|(_, frags)| frags.iter().any(|f| f.arcs_to(a, b)))`; as a loop: %s" % why)
+    else:
+        bad("Property::arcs_to", None, "function not found")
     # Property::empty
     p = _one(prog, PB + "empty")
     if p:
